@@ -101,7 +101,7 @@ class C06(Check):
     ]
     bounds = {
         "quick": {"step": "N<=3, beta_prev in {0,1/2}, tol 1/4", "fixed_n_steps_max": 12},
-        "thorough": {"step": "N<=4, beta_prev in {0,1/2}, tol in {1/4,1/8}", "fixed_n_steps_max": 52},
+        "thorough": {"step": "N<=3, beta_prev in {0,1/2,3/4}, tol 1/4 (1/8 for N=2 from 0 and N=3 from 1/2 with the step cap)", "fixed_n_steps_max": 52},
     }
 
     def configs(self, tier):
